@@ -384,6 +384,7 @@ pub fn execute(h: &dyn Harness, plan: &Plan, cfg: &CfgSer, dec: Decisions) -> Ru
     if pid == 0 {
         // child
         unsafe { libc::close(fds[0]) };
+        sim::quarantine::set_poison(true);
         let r = h.execute(plan, cfg, dec);
         let s = serde_json::to_vec(&to_out(&r)).unwrap_or_default();
         let mut off = 0;
@@ -940,7 +941,12 @@ pub fn drive_harness(h: &dyn Harness, verif_seed: u64, total: u64, workers: usiz
                     let o = c.output().expect("spawn");
                     again.push(u64::from_str_radix(String::from_utf8_lossy(&o.stdout).trim(), 16).unwrap_or(0));
                 }
-                if again.iter().all(|g| *g == fp) {
+                // (second revision) the outlier can also be the worker's own run: three times a loaded machine
+                // produced worker fingerprints that no later execution — worker-style or fresh, stressed or not —
+                // ever reproduced. What matters for replay is that fresh executions agree with each other (a
+                // violation whose replay does not reproduce is a harness error of its own); so: the two re-runs
+                // agreeing with each other and with either first value = transient, anything else = error.
+                if again.iter().all(|g| *g == fp) || again.iter().all(|g| *g == got) {
                     transient += 1;
                 } else {
                     diverged += 1;
